@@ -168,10 +168,14 @@ func getAt(v interface{}, p jpath) interface{} {
 	for _, k := range p {
 		switch x := v.(type) {
 		case map[string]interface{}:
-			v = x[k.(string)]
+			ks, ok := k.(string)
+			if !ok {
+				return nil
+			}
+			v = x[ks]
 		case []interface{}:
-			i := k.(int)
-			if i >= len(x) {
+			i, ok := k.(int)
+			if !ok || i >= len(x) {
 				return nil
 			}
 			v = x[i]
@@ -188,19 +192,23 @@ func setAt(root map[string]interface{}, p jpath, val interface{}, del bool) {
 	for i, k := range p[:len(p)-1] {
 		switch x := v.(type) {
 		case map[string]interface{}:
-			nxt, ok := x[k.(string)]
+			ks, isStr := k.(string)
+			if !isStr {
+				return // the document's shape differs from the path's (an earlier mutation retyped a node)
+			}
+			nxt, ok := x[ks]
 			if !ok || nxt == nil {
 				if _, isInt := p[i+1].(int); isInt {
 					nxt = []interface{}{map[string]interface{}{}}
 				} else {
 					nxt = map[string]interface{}{}
 				}
-				x[k.(string)] = nxt
+				x[ks] = nxt
 			}
 			v = nxt
 		case []interface{}:
-			idx := k.(int)
-			if idx >= len(x) {
+			idx, isInt := k.(int)
+			if !isInt || idx >= len(x) {
 				return
 			}
 			if x[idx] == nil {
